@@ -16,8 +16,8 @@ and the entity modules with `ast` and renders
 
 as constants of the types below (`NixModel/Generated/DeleteShape.lean`). This file gives these
 statement lists a *meaning* over the HDF5 graph model; `Lemmas/C04Shape.lean` proves that the
-meaning of the generated constants is the hand-written model (`contDel`, `Graph.deleteAll`,
-`h5Delete`, `setRole … none`, `bfsIds`) — for all graphs, containers and keys — so that an edit of
+meaning of the generated constants is the hand-written model (`contDel`, `Graph.deleteObjs`,
+`h5Delete`, `setRole … none`, `bfsKeys`) — for all graphs, containers and keys — so that an edit of
 the deletion code either no longer translates (broken tie) or breaks a named theorem.
 -/
 namespace Nix.Store.DelShape
@@ -45,10 +45,10 @@ inductive Cls where
   | itemclass     -- `self._itemclass`
   deriving DecidableEq, Repr, Inhabited
 
-/-- expressions that produce entity ids -/
-inductive IdSrc where
-  | selfId                      -- `item.id`
-  | subtree (sub : String)      -- `s.id for s in item.find_<sub>()`   (no arguments: no filter, no limit)
+/-- expressions that produce the HDF5 objects to unlink -/
+inductive ObjSrc where
+  | selfObj                     -- `item._h5group`
+  | subtree (sub : String)      -- `s._h5group for s in item.find_<sub>()`   (no arguments: no filter, no limit)
   deriving DecidableEq, Repr, Inhabited
 
 inductive DStmt where
@@ -56,12 +56,12 @@ inductive DStmt where
   | resolveUnless (cs : List Cls)
   /-- `if not isinstance(item, self._itemclass): raise TypeError(…)` -/
   | requireItem
-  /-- `<ids> = [<src>]` (a list display of `item.id` or the comprehension over `find_*`) -/
-  | assign (src : IdSrc)
-  /-- `<ids>.append(item.id)` -/
-  | append (src : IdSrc)
-  /-- `self._file._h5group.delete_all(<ids>)`; `lit = some s`: the argument is the list display `[<s>]` -/
-  | fileDeleteAll (lit : Option IdSrc)
+  /-- `<objs> = [<src>]` (a list display of `item._h5group` or the comprehension over `find_*`) -/
+  | assign (src : ObjSrc)
+  /-- `<objs>.append(item._h5group)` -/
+  | append (src : ObjSrc)
+  /-- `self._file._h5group.delete_all(<objs>)`; `lit = some s`: the argument is the list display `[<s>]` -/
+  | fileDeleteAll (lit : Option ObjSrc)
   /-- `self._backend.delete(item.id)` / `…delete(item.id, delete_if_empty=b)` -/
   | backendDelete (deleteIfEmpty : Option Bool)
   deriving DecidableEq, Repr, Inhabited
@@ -74,9 +74,9 @@ def isInst (g : Graph) (c : Cont) (item : Key) (cls : Cls) : Bool :=
   | .ent k, .itemclass => kindOf g k == c.info.item
   | _, _ => false
 
-def evalSrc (g : Graph) (k : Nat) : IdSrc → List String
-  | .selfId => match g.entityId k with | some i => [i] | none => []
-  | .subtree sub => subtreeIds g sub k
+def evalSrc (g : Graph) (k : Nat) : ObjSrc → List Nat
+  | .selfObj => [k]
+  | .subtree sub => subtreeKeys g sub k
 
 /-- `H5Group.delete` with its depth bound as a parameter (`groupdepth > minDepth`) -/
 def h5DeleteP (minDepth : Nat) (g : Graph) (grp parent : Nat) (lname : String) (depth : Nat) (x : String)
@@ -102,9 +102,9 @@ structure H5DeleteParams where
   minDepth : Nat
   deriving DecidableEq, Repr, Inhabited
 
-/-- run a `__delitem__` body: `item` is the key as passed or, once resolved, the entity; `ids` the
+/-- run a `__delitem__` body: `item` is the key as passed or, once resolved, the entity; `objs` the
 list variable. A body that ends without a deletion leaves the file as it is. -/
-def exec (P : H5DeleteParams) (c : Cont) : List DStmt → Graph → Key → List String → Except Err Graph
+def exec (P : H5DeleteParams) (c : Cont) : List DStmt → Graph → Key → List Nat → Except Err Graph
   | [], g, _, _ => .ok g
   | .resolveUnless cs :: rest, g, item, ids =>
     if cs.any (isInst g c item) then exec P c rest g item ids
@@ -117,15 +117,15 @@ def exec (P : H5DeleteParams) (c : Cont) : List DStmt → Graph → Key → List
   | .assign src :: rest, g, item, _ =>
     match item with
     | .ent k => exec P c rest g item (evalSrc g k src)
-    | _ => .error .attributeError            -- `.id` of a str / int
+    | _ => .error .attributeError            -- `._h5group` of a str / int
   | .append src :: rest, g, item, ids =>
     match item with
     | .ent k => exec P c rest g item (ids ++ evalSrc g k src)
     | _ => .error .attributeError
   | .fileDeleteAll lit :: rest, g, item, ids =>
     match lit, item with
-    | none, _ => exec P c rest (g.deleteAll ids) item ids
-    | some s, .ent k => exec P c rest (g.deleteAll (evalSrc g k s)) item ids
+    | none, _ => exec P c rest (g.deleteObjs ids) item ids
+    | some s, .ent k => exec P c rest (g.deleteObjs (evalSrc g k s)) item ids
     | some _, _ => .error .attributeError
   | .backendDelete die :: rest, g, item, ids =>
     match item with
@@ -146,8 +146,8 @@ def runDel (P : H5DeleteParams) (body : List DStmt) (g : Graph) (c : Cont) (key 
 /-! ## the per-group scan of `H5Group.delete_all` -/
 
 inductive ScanStmt where
-  /-- `if child.get_attr(<attr>) in eid: <body>` -/
-  | ifAttrIn (attr : String) (body : List ScanStmt)
+  /-- `if child.h5obj in targets: <body>` (`targets`: the HDF5 objects of the handles passed) -/
+  | ifObjIn (body : List ScanStmt)
   /-- `del grp[child.name]` -/
   | delChild
   | brk
@@ -161,42 +161,39 @@ structure ScanOut where
   skip : Bool := false        -- `continue` / `break`: the rest of the body is not run
   deriving DecidableEq, Repr, Inhabited
 
-def attrIn (g : Graph) (ids : List String) (attr : String) (k : Nat) : Bool :=
-  match g.getAttr k attr with
-  | some i => ids.contains i
-  | none => false          -- `None in eid` (the ids handed over are strings)
+/-- `child.h5obj in targets`: h5py compares HDF5 objects by identity (file and address) — node keys -/
+def objIn (ks : List Nat) (k : Nat) : Bool := ks.contains k
 
-def runBody (g : Graph) (ids : List String) (k : Nat) : Nat → List ScanStmt → ScanOut → ScanOut
+def runBody (ks : List Nat) (k : Nat) : Nat → List ScanStmt → ScanOut → ScanOut
   | 0, _, o => o
   | _, [], o => o
   | fuel + 1, s :: rest, o =>
     if o.skip then o
     else
       match s with
-      | .delChild => runBody g ids k fuel rest { o with deleted := true }
+      | .delChild => runBody ks k fuel rest { o with deleted := true }
       | .brk => { o with stop := true, skip := true }
       | .cont => { o with skip := true }
-      | .ifAttrIn attr body =>
-        if attrIn g ids attr k then
-          let o1 := runBody g ids k fuel body o
-          runBody g ids k fuel rest o1
-        else runBody g ids k fuel rest o
+      | .ifObjIn body =>
+        if objIn ks k then
+          let o1 := runBody ks k fuel body o
+          runBody ks k fuel rest o1
+        else runBody ks k fuel rest o
 
-/-- `for child in grp: <body>` over the links of one group (attributes are read in the graph before
-the call: deleting links does not change them) -/
-def scanLinks (g : Graph) (ids : List String) (body : List ScanStmt) :
+/-- `for child in grp: <body>` over the links of one group -/
+def scanLinks (ks : List Nat) (body : List ScanStmt) :
     List (String × Nat) → List (String × Nat)
   | [] => []
   | l :: rest =>
-    let o := runBody g ids l.2 64 body {}
-    let rest' := if o.stop then rest else scanLinks g ids body rest
+    let o := runBody ks l.2 64 body {}
+    let rest' := if o.stop then rest else scanLinks ks body rest
     if o.deleted then rest' else l :: rest'
 
-/-- `self._group.visititems(delete_by_id)`: the scan runs on every group (groups that became
+/-- `self._group.visititems(delete_links_to)`: the scan runs on every group (groups that became
 unreachable meanwhile are unobservable; datasets have no links) -/
-def scanAll (g : Graph) (ids : List String) (body : List ScanStmt) : Graph :=
+def scanAll (g : Graph) (ks : List Nat) (body : List ScanStmt) : Graph :=
   { g with nodes := g.nodes.map fun kn =>
-      (kn.1, { kn.2 with links := scanLinks g ids body kn.2.links }) }
+      (kn.1, { kn.2 with links := scanLinks ks body kn.2.links }) }
 
 /-! ## role-link deleters -/
 
@@ -235,9 +232,9 @@ structure FindShape where
 
 /-- the collection a `FindShape` describes, with no filter and no depth limit; `none`: a shape this
 model gives no meaning to -/
-def findIds (sh : FindShape) (g : Graph) (k : Nat) : Option (List String) :=
+def findKeys (sh : FindShape) (g : Graph) (k : Nat) : Option (List Nat) :=
   if sh.startQueued && sh.popFront && sh.childrenAtBack && sh.resultAppend then
-    some (bfsIds g sh.sub (g.nodes.length * g.nodes.length + 1) [k] [])
+    some (bfsKeys g sh.sub (g.nodes.length * g.nodes.length + 1) [k] [])
   else none
 
 end Nix.Store.DelShape
